@@ -43,8 +43,8 @@ pub fn run_meta<T: Model>(ctx: &mut Ctx) {
     ctx.out.m("meta", &s(ef, el), &["meta", &d]);
     ctx.out.m("meta", &s(df, dl), &["meta", &d]);
     let name = T::rust_name();
-    ctx.out.r("C07", "meta", ef == df && el == dl, &["meta_agree", &name]);
-    ctx.out.r("C07", "meta", ef || el == 4, &["variable_fixed_len_is_4", &name]);
+    ctx.out.r("C07", "meta", ef == df && el == dl, &["meta_agree", "meta", &d, &name]);
+    ctx.out.r("C07", "meta", ef || el == 4, &["variable_fixed_len_is_4", "meta", &d, &name]);
 }
 
 fn values<T: Model>(ctx: &mut Ctx) -> Vec<T> {
@@ -79,19 +79,19 @@ pub fn run_enc<T: Model>(ctx: &mut Ctx) {
             ctx.out.o("C03", "enc", &hx, &["spec", &d, &val]);
             let l = v.ssz_bytes_len();
             ctx.out.m("len", &l.to_string(), &["len", &d, &val]);
-            ctx.out.r("C07", "len", l == bytes.len(), &["bytes_len", &name, &val]);
+            ctx.out.r("C07", "len", l == bytes.len(), &["bytes_len", "len", &d, &val, &name]);
             if <T as Encode>::is_ssz_fixed_len() {
                 ctx.out.r(
                     "C07",
                     "len",
                     bytes.len() == <T as Encode>::ssz_fixed_len(),
-                    &["fixed_len_exact", &name, &val],
+                    &["fixed_len_exact", "enc", &d, &val, &name],
                 );
             }
             if T::roundtrip() {
                 let back = catch_unwind(AssertUnwindSafe(|| T::from_ssz_bytes(&bytes)));
                 let ok = matches!(&back, Ok(Ok(w)) if *w == v);
-                ctx.out.r("C01", "enc", ok, &["roundtrip", &name, &d, &val, &hx]);
+                ctx.out.r("C01", "enc", ok, &["roundtrip", "dec", &d, &hx, &name, &val]);
             }
             // C04 (<-): what the specification serializer produces must be accepted with this value;
             // the `spec` line above ties Spec.ser to these bytes, the decode line ties acceptance.
@@ -105,18 +105,18 @@ pub fn run_enc<T: Model>(ctx: &mut Ctx) {
                 v.ssz_append(&mut buf);
                 let mut want = p.clone();
                 want.extend_from_slice(&bytes);
-                ctx.out.r("C10", "entry", buf == want, &["append_prefix", &name, &val, &hex(&p)]);
+                ctx.out.r("C10", "entry", buf == want, &["append_prefix", "append", &d, &val, &hex(&p), &name]);
                 ctx.out.m("entry", &hex(&buf), &["append", &d, &val, &hex(&p)]);
             }
-            ctx.out.r("C10", "entry", ssz::ssz_encode(&v) == bytes, &["ssz_encode", &name, &val]);
-            ctx.out.r("C10", "entry", (&v).as_ssz_bytes() == bytes, &["ref", &name, &val]);
-            ctx.out.r("C10", "entry", (&&v).as_ssz_bytes() == bytes, &["refref", &name, &val]);
+            ctx.out.r("C10", "entry", ssz::ssz_encode(&v) == bytes, &["ssz_encode", "enc", &d, &val, &name]);
+            ctx.out.r("C10", "entry", (&v).as_ssz_bytes() == bytes, &["ref", "enc", &d, &val, &name]);
+            ctx.out.r("C10", "entry", (&&v).as_ssz_bytes() == bytes, &["refref", "enc", &d, &val, &name]);
             let a = Arc::new(v.clone());
-            ctx.out.r("C10", "entry", a.as_ssz_bytes() == bytes, &["arc", &name, &val]);
+            ctx.out.r("C10", "entry", a.as_ssz_bytes() == bytes, &["arc", "enc", &d, &val, &name]);
             let mut b2 = vec![9u8];
             a.ssz_append(&mut b2);
-            ctx.out.r("C10", "entry", b2[1..] == bytes[..] && b2[0] == 9, &["arc_append", &name, &val]);
-            ctx.out.r("C10", "entry", (&a).ssz_bytes_len() == bytes.len(), &["arc_len", &name, &val]);
+            ctx.out.r("C10", "entry", b2[1..] == bytes[..] && b2[0] == 9, &["arc_append", "enc", &d, &val, &name]);
+            ctx.out.r("C10", "entry", (&a).ssz_bytes_len() == bytes.len(), &["arc_len", "enc", &d, &val, &name]);
         }
     }
 }
@@ -304,22 +304,22 @@ pub fn run_dec<T: Model>(ctx: &mut Ctx) {
             Err(_) => "panic".to_string(),
         };
         ctx.out.m("dec", &s, &["dec", &d, &hx]);
-        ctx.out.r("C05", "dec", r.is_ok(), &["no_panic", &name, &d, &hx]);
+        ctx.out.r("C05", "dec", r.is_ok(), &["no_panic", "dec", &d, &hx, &name]);
         match &r {
             Ok(Ok(v)) => {
                 ctx.out.bump(&format!("dec.{}.ok", d_short(&d)));
                 let re = catch_unwind(AssertUnwindSafe(|| v.as_ssz_bytes()));
                 if T::strict() {
                     let ok = matches!(&re, Ok(e) if *e == b);
-                    ctx.out.r("C02", "dec", ok, &["canonical", &name, &d, &hx]);
+                    ctx.out.r("C02", "dec", ok, &["canonical", "dec", &d, &hx, &name]);
                 } else if let Ok(e) = &re {
                     // fixed point for ordered collections (C19)
                     let again = catch_unwind(AssertUnwindSafe(|| T::from_ssz_bytes(e)));
                     let ok = matches!(&again, Ok(Ok(w)) if w == v);
-                    ctx.out.r("C19", "dec", ok || !T::roundtrip(), &["fixed_point", &name, &d, &hx]);
+                    ctx.out.r("C19", "dec", ok || !T::roundtrip(), &["fixed_point", "dec", &d, &hx, &name]);
                 }
                 if fixed {
-                    ctx.out.r("C07", "dec", b.len() == fl, &["fixed_decode_len", &name, &d, &hx]);
+                    ctx.out.r("C07", "dec", b.len() == fl, &["fixed_decode_len", "dec", &d, &hx, &name]);
                 }
             }
             Ok(Err(_)) => ctx.out.bump(&format!("dec.{}.err", d_short(&d))),
